@@ -37,12 +37,15 @@ func sortedUnique(keys [][]byte) [][]byte {
 
 // cursorContract drives one adapter through the store.Store interface only.
 func cursorContract(st store.Store, label string) {
-	n := nd.Choice("nkeys", 4)
+	n := nd.Choice("nkeys", 3)
 	var keys [][]byte
 	tx, err := st.Begin(true)
 	nd.Assert(label+".begin", err == nil)
 	for i := 0; i < n; i++ {
 		k := []byte{'k', nd.Byte("key")}
+		if nd.Choice("key.long", 2) == 1 {
+			k = append(k, nd.Byte("key2")) // proper-prefix pairs (k?, k??) arise
+		}
 		var v []byte
 		if nd.Choice("value.nonempty", 2) == 1 {
 			v = []byte("v")
@@ -112,7 +115,7 @@ func cursorContract(st store.Store, label string) {
 	nd.Reach("end")
 }
 
-//verif:harness props=C15,C17 tier=quick bounds="real bbolt adapter over the bbolt contract stub: <=3 committed keys (1 symbolic byte, empty or non-empty values, duplicates arise) plus optionally one empty-valued key written in the iterating write transaction; seek target symbolic / before the first / after the last key; both directions: lands and iterates exactly per the cursor contract"
+//verif:harness props=C15,C17 tier=quick bounds="real bbolt adapter over the bbolt contract stub: <=2 committed keys (1-2 symbolic bytes, so duplicates and proper-prefix pairs arise; empty or non-empty values) plus optionally one empty-valued key written in the iterating write transaction; seek target symbolic / before the first / after the last key; both directions: lands and iterates exactly per the cursor contract"
 func H_C15_cursor_bbolt() {
 	cursorContract(openAdapter(0), "C15.bbolt")
 }
